@@ -23,6 +23,7 @@ type Options struct {
 	keep     bool
 	verbose  bool
 	seed     int
+	out      string
 }
 
 func main() {
@@ -34,7 +35,8 @@ func main() {
 	fs := flag.NewFlagSet(cmd, flag.ExitOnError)
 	var o Options
 	fs.StringVar(&o.repo, "repo", "/repo", "repository root (current working tree is verified)")
-	fs.StringVar(&o.verif, "verif", "/verif", "verification directory")
+	fs.StringVar(&o.verif, "verif", "/verif", "verification directory (contracts, known findings)")
+	fs.StringVar(&o.out, "out", "", "output directory for evidence/, replays/, work/ (default: the verification directory)")
 	fs.StringVar(&o.prop, "prop", "", "property id (Cxx)")
 	fs.StringVar(&o.tier, "tier", "quick", "quick|thorough")
 	fs.IntVar(&o.timeout, "timeout", 0, "per-query timeout in seconds (default 10 quick / 60 thorough)")
@@ -48,6 +50,9 @@ func main() {
 	}
 	if t := os.Getenv("VERIF_TIER"); t != "" && o.tier == "" {
 		o.tier = t
+	}
+	if o.out == "" {
+		o.out = o.verif
 	}
 	if o.timeout == 0 {
 		o.timeout = 30
@@ -143,9 +148,9 @@ func runCheck(o *Options) int {
 	if err != nil {
 		fmt.Println("govc: cannot load the working tree:", err)
 		writeBrokenEvidence(o, "load failure: "+err.Error(), start)
-		fmt.Printf("VIOLATION property=%s replay=%s no-failing-input-found\n", o.prop, filepath.Join(o.verif, "replays", o.prop+"-load.txt"))
-		os.MkdirAll(filepath.Join(o.verif, "replays"), 0o755)
-		os.WriteFile(filepath.Join(o.verif, "replays", o.prop+"-load.txt"), []byte("tree does not load with -tags verif: "+err.Error()+"\n"), 0o644)
+		fmt.Printf("VIOLATION property=%s replay=%s no-failing-input-found\n", o.prop, filepath.Join(o.out, "replays", o.prop+"-load.txt"))
+		os.MkdirAll(filepath.Join(o.out, "replays"), 0o755)
+		os.WriteFile(filepath.Join(o.out, "replays", o.prop+"-load.txt"), []byte("tree does not load with -tags verif: "+err.Error()+"\n"), 0o644)
 		return 1
 	}
 	v := newVerifier(p)
@@ -172,7 +177,7 @@ func runCheck(o *Options) int {
 			mine = append(mine, ob)
 		}
 	}
-	qdir := filepath.Join(o.verif, "work", o.prop)
+	qdir := filepath.Join(o.out, "work", o.prop)
 	os.RemoveAll(qdir)
 	if o.tier != "thorough" {
 		// obligations listed as not claimed are not attempted in the quick tier
@@ -193,7 +198,7 @@ func writeBrokenEvidence(o *Options, why string, start time.Time) {
 			"trusted_base": []string{}, "explanation": why},
 		"wall_s": time.Since(start).Seconds(), "violations": 1,
 	}
-	writeJSON(filepath.Join(o.verif, "evidence", o.prop+".json"), ev)
+	writeJSON(filepath.Join(o.out, "evidence", o.prop+".json"), ev)
 }
 
 func writeJSON(path string, v interface{}) {
